@@ -93,9 +93,9 @@ func runThrottled(c *Ctx, sh *shared, dir string) {
 		cancel bool
 	}
 	variants := []variant{
-		{"succeeded", plan{Name: "big-succeeded", Steps: []string{"w2000000"}}, false},
-		{"failed", plan{Name: "big-failed", Steps: []string{"w1200000", "x3"}}, false},
-		{"canceled", plan{Name: "big-canceled", Steps: []string{"w1200000", "h"}}, true},
+		{"succeeded", plan{Name: "big-succeeded", Steps: []string{"w1500000"}}, false},
+		{"failed", plan{Name: "big-failed", Steps: []string{"w800000", "x3"}}, false},
+		{"canceled", plan{Name: "big-canceled", Steps: []string{"w800000", "h"}}, true},
 	}
 	if os.Getenv("C05_THR") != "" { // development aid
 		for _, v := range variants {
@@ -179,17 +179,20 @@ func runThrottled(c *Ctx, sh *shared, dir string) {
 			}
 			final := errA == nil && (stateOf(stA) == 2 || stateOf(stA) == 3 || stateOf(stA) == 4) && sizeOf(stA) == int64(full)
 			_, loc = localSize()
+			if os.Getenv("C05_DEBUG") != "" {
+				fmt.Fprintf(os.Stderr, "throttled %s %8v local=%d state=%d size=%d err=%v\n", v.name, time.Since(t0).Round(time.Millisecond), loc, stateOf(stA), sizeOf(stA), errA)
+			}
 			switch {
 			case final && !sawFinalBehind && loc < int64(full):
 				// the moment the seeded faults of this kind need: record final, copy short
 				sawFinalBehind, finalBehindLocal = true, loc
-				ask("final-copy-behind", 0, true)
+				ask("final-copy-behind", 0, v.name != "failed")
 				ask("final-copy-behind", full/2, false)
 				ask("final-copy-behind", full-1, false)
 			case final && sawFinalBehind && !sawMid && loc >= int64(full)*3/10 && loc < int64(full)*8/10:
 				sawMid, midLocal = true, loc
-				ask("final-copy-midway", int(loc)/2, true)
-				ask("final-copy-midway", int(loc)-1, true)
+				ask("final-copy-midway", int(loc)/2, v.name == "succeeded")
+				ask("final-copy-midway", int(loc)-1, v.name != "canceled")
 				ask("final-copy-midway", int(loc), false)
 			case final && loc >= int64(full):
 				finalA, converged = stA, true
@@ -267,13 +270,15 @@ func runThrottled(c *Ctx, sh *shared, dir string) {
 }
 
 // mirroredWorld writes what the submitting node saw of a mirrored unit as environment events of
-// Model/Results.v: the growth of the local copy (from the samples; coarsened: one append per
-// change of the record, per 256 KiB, and at the moment of asking) and the records copied from the
-// remote node (status-rewrite log of the submitting node).  A sample reads the size of the copy
-// first and the log afterwards.  Split at tAsk: events of samples finished before the request
-// was sent / the rest.
+// Model/Results.v: the records copied from the remote node (status-rewrite log of the submitting
+// node; a rewrite that changes neither state nor size is left out) and the growth of the local
+// copy (from the samples; coarsened — evaluating a megabyte history in Coq costs seconds per
+// append: one append at the first final record, one at the moment of asking, one per quarter of
+// the output, one at the end).  A sample reads the size of the copy first and the log afterwards.
+// Split at tAsk: events of samples finished before the request was sent / the rest.
 func mirroredWorld(samples []thrSample, linesA []statusLine, out []byte, tAsk time.Duration) (pre, post []string) {
 	cur, created, li := 0, false, 0
+	lastSt, lastSz, sawFinal := -1, int64(-1), false
 	emit := func(t time.Duration, ev string) {
 		if t < tAsk {
 			pre = append(pre, ev)
@@ -290,25 +295,37 @@ func mirroredWorld(samples []thrSample, linesA []statusLine, out []byte, tAsk ti
 			cur = to
 		}
 	}
+	status := func(t time.Duration, l statusLine) {
+		if l.New.State == lastSt && l.New.StdoutSize == lastSz {
+			return
+		}
+		lastSt, lastSz = l.New.State, l.New.StdoutSize
+		emit(t, fmt.Sprintf("ESetStatus %d %d", l.New.State, l.New.StdoutSize))
+	}
+	quarter := len(out)/4 + 1
 	for i, s := range samples {
 		if s.Exists && !created {
 			emit(s.T, "ECreate")
 			created = true
 		}
-		newLines := li < len(linesA) && linesA[li].Index < s.LinesA
+		firstFinal := false
+		for j := li; j < len(linesA) && linesA[j].Index < s.LinesA; j++ {
+			if !sawFinal && linesA[j].New.State >= 2 {
+				firstFinal, sawFinal = true, true
+			}
+		}
 		lastBefore := s.T < tAsk && (i+1 == len(samples) || samples[i+1].T >= tAsk)
-		if newLines || lastBefore || int(s.Local)-cur >= 1<<18 || i+1 == len(samples) {
+		if firstFinal || lastBefore || int(s.Local)/quarter > cur/quarter || i+1 == len(samples) {
 			grow(s.T, int(s.Local))
 		}
 		for li < len(linesA) && linesA[li].Index < s.LinesA {
-			l := linesA[li]
-			emit(s.T, fmt.Sprintf("ESetStatus %d %d", l.New.State, l.New.StdoutSize))
+			status(s.T, linesA[li])
 			li++
 		}
 	}
 	t := time.Duration(1 << 62)
 	for ; li < len(linesA); li++ {
-		emit(t, fmt.Sprintf("ESetStatus %d %d", linesA[li].New.State, linesA[li].New.StdoutSize))
+		status(t, linesA[li])
 	}
 	grow(t, len(out))
 	return pre, post
